@@ -1028,6 +1028,16 @@ func (ex *Exec) doReturn(st *State, fr *Frame, rs []*Val, in ssa.Instruction) {
 			ctx.names["result"] = sv
 		}
 	}
+	ex.curResults = nil
+	if fr.id == 0 {
+		for i := 0; i < res.Len(); i++ {
+			if i < len(rs) && rs[i] != nil && rs[i].T != nil && rs[i].Sl == nil && len(rs[i].Fs) == 0 {
+				ex.curResults = append(ex.curResults, rs[i].T)
+			} else {
+				ex.curResults = append(ex.curResults, nil)
+			}
+		}
+	}
 	ex.covers = append(ex.covers, &Oblig{Site: fmt.Sprintf("%s/cover:return#%d", fname, ex.siteOrd[in]), Kind: "cover", Hyps: append([]*Term(nil), st.pc...), Goal: TFalse, Fn: fname, Path: st.pathID})
 	if spec.Panics != nil && spec.Panics.appliesTo(ex.prop) {
 		pc := ex.specCtx(ex.entry, nil, fr)
